@@ -133,6 +133,24 @@ class BasicBlockNode:
         except IndexError:
             return None
 
+    def _block_index(self, index: int) -> int:
+        """Translate an index over the instructions into an index over the basic block.
+
+        Besides instructions, a basic block may contain pseudo-instructions (TryBegin,
+        TryEnd, SetLineno), which the index over the instructions does not count.
+
+        Args:
+            index: The index over the instructions
+
+        Returns:
+            The index of the same instruction in the basic block
+        """
+        return tuple(
+            block_index
+            for block_index, instr in enumerate(self._basic_block)
+            if isinstance(instr, Instr)
+        )[index]
+
     @property
     def original_instructions(self) -> Iterable[Instr]:
         """Provides the original instructions of the basic block.
@@ -165,7 +183,7 @@ class BasicBlockNode:
                 instr_index += 1
                 continue
 
-            yield instr_index, instr
+            yield self._block_index(instr_index), instr
 
             # Update the instr_index to retarget at the original instruction
             while (
@@ -186,9 +204,9 @@ class BasicBlockNode:
             The index of the instruction in the basic block and the instruction itself
         """
         return tuple(
-            (instr_index, instr)
-            for instr_index, instr in enumerate(self.instructions)
-            if not isinstance(instr, ArtificialInstr)
+            (block_index, instr)
+            for block_index, instr in enumerate(self._basic_block)
+            if isinstance(instr, Instr) and not isinstance(instr, ArtificialInstr)
         )[original_index]
 
     def __eq__(self, other: object) -> bool:
